@@ -3,6 +3,7 @@
 package cisco
 
 import (
+	"sort"
 	"strings"
 
 	"github.com/hknutzen/Netspoc-Approve/go/pkg/deviceconf"
@@ -45,4 +46,75 @@ func VerifACLDump(c deviceconf.Config) (acls map[string][]string, bindings [][2]
 		}
 	}
 	return acls, bindings
+}
+
+// VerifC18Cmd is one command (or subcommand) of a configuration as MergeSpoc
+// sees it.
+type VerifC18Cmd struct {
+	Prefix    string // key of lookup table (toplevel commands only)
+	Key       string // name used as key of lookup table (toplevel only)
+	TypPrefix string // typ.prefix
+	Parsed    string
+	Name      string
+	Seq       int
+	Ref       []string
+	RefPrefix []string // typ.ref, cut to length of Ref
+	Append    bool
+	Anchor    bool // typ.anchor || anchor || is default object
+	Simple    bool // typ.simpleObj
+	Sub       []VerifC18Cmd
+}
+
+// VerifConfDump shows all commands of a configuration returned by
+// ParseConfig / MergeSpoc: prefixes sorted, names sorted, commands of one
+// name in stored order. Only used by the verification harness (property C18).
+func VerifConfDump(c deviceconf.Config) (isRaw bool, cmds []VerifC18Cmd) {
+	cf := c.(*Config)
+	one := func(c *cmd) VerifC18Cmd {
+		d := VerifC18Cmd{
+			TypPrefix: c.typ.prefix,
+			Parsed:    c.parsed,
+			Name:      c.name,
+			Seq:       c.seq,
+			Ref:       append([]string{}, c.ref...),
+			Append:    c.append,
+			Anchor:    c.typ.anchor || c.anchor,
+			Simple:    c.typ.simpleObj,
+		}
+		for i := range c.ref {
+			p := "?"
+			if i < len(c.typ.ref) {
+				p = c.typ.ref[i]
+			}
+			d.RefPrefix = append(d.RefPrefix, p)
+		}
+		return d
+	}
+	prefixes := make([]string, 0, len(cf.lookup))
+	for p := range cf.lookup {
+		prefixes = append(prefixes, p)
+	}
+	sort.Strings(prefixes)
+	for _, p := range prefixes {
+		m := cf.lookup[p]
+		names := make([]string, 0, len(m))
+		for n := range m {
+			names = append(names, n)
+		}
+		sort.Strings(names)
+		for _, n := range names {
+			for _, c := range m[n] {
+				d := one(c)
+				d.Prefix, d.Key = p, n
+				if defaultObjects[[2]string{p, n}] != nil {
+					d.Anchor = true
+				}
+				for _, sc := range c.sub {
+					d.Sub = append(d.Sub, one(sc))
+				}
+				cmds = append(cmds, d)
+			}
+		}
+	}
+	return cf.isRaw, cmds
 }
